@@ -86,6 +86,7 @@ class _SocketHub:
 
     def disconnect(self, socket: thread_socket.ThreadSocket) -> None:
         """Disconnect a socket"""
+        method = None
         with self._lock:
             conn_lost_callback = self._conn_lost_callbacks.get(socket.remote_key)
             if conn_lost_callback is not None:
@@ -96,8 +97,6 @@ class _SocketHub:
                         f"Trying to call lost connection callback "
                         f"for socket {socket.remote_key} but object is garbage collected"
                     )
-                else:
-                    method()
 
             if socket.key in self._open_sockets:
                 self._open_sockets.remove(socket.key)
@@ -105,6 +104,11 @@ class _SocketHub:
                 self._remote_sockets.remove(socket.remote_key)
             self._recv_callbacks.pop(socket.key, None)
             self._conn_lost_callbacks.pop(socket.key, None)
+
+        if method is not None:
+            # Call the remote's callback without holding the lock, since it may
+            # use its socket (which needs the lock) in response.
+            method()
 
     def _wait_for_remote(
         self, socket: thread_socket.ThreadSocket, timeout: Optional[float] = None
